@@ -163,7 +163,7 @@ impl Ctx {
         match guard(f) {
             Ok(v) => Some(v),
             Err(p) => {
-                let sig = p.sig();
+                let sig = p.sig().replacen("panic:", &format!("panic:{}:", stage.split('(').next().unwrap_or(stage)), 1);
                 let what = format!("panic in {stage} at {}:{}: {}", p.file, p.line, p.msg);
                 self.count(&format!("panic.{stage}"));
                 self.violation(&sig, what, case());
